@@ -10,8 +10,11 @@ from .. import api as apimod
 LEVEL = 'other'
 
 
+ALLOWED_WRITERS = {'_master_map': ('init_mms',), '_master_pointer': ('init_mms', 'select_mms')}
+
+
 def run(ctx, prog):
-    ctx.rule('C12.H1', 'with every callee inlined, the registry map can be modified only through masa_init and the selection pointer only through masa_init / masa_select_mms; '
+    ctx.rule('C12.H1', 'with every callee inlined, whichever entry point is called, the registry map is modified only while the registry method init_mms is executing and the selection pointer only inside init_mms / select_mms (what these do for arbitrary arguments is H2 and the select rule); '
              'select_mms assigns the pointer the mapped value of exactly the looked-up key')
     ctx.rule('C12.H2', 'the object init_mms installs is an element of the vector that get_list_mms filled in the same call; every element is a new-expression; no candidate is static, cached or shared')
     ctx.rule('C12.H3', 'every address passed to register_var/register_vec is a non-static data member (or sub-object member) of the object under construction; solution classes have no mutable static data')
@@ -47,6 +50,7 @@ def run(ctx, prog):
             regs[sc2] = o0[0].ret[1]
         own_reg = regs[scalar]
         writers = {'_master_map': set(), '_master_pointer': set()}
+        outside = {'_master_map': [], '_master_pointer': []}
         n_api = 0
         for f in prog.functions:
             if not (f.q.startswith('MASA::') and not f.get('rec') and f.scalar == scalar):
@@ -62,6 +66,12 @@ def run(ctx, prog):
                     if pth.endswith('.' + fld) and pth[:-len(fld) - 1] in regs.values():
                         touched.add(pth[:-len(fld) - 1])
                         writers[fld].add(f.n)
+                        # which registry method performs the write (its callers may be any entry point: what the
+                        # method does with arbitrary arguments is decided by H2 / select-assigns-found)
+                        for stk in ev.trace.write_stacks.get(pth, ()):
+                            via = [q for q in stk if q.split('::')[-1] in ALLOWED_WRITERS[fld] and q.startswith(rq + '::')]
+                            if not via:
+                                outside[fld].append('%s at %s%s' % (f.n, ev.trace.writes[pth][0], (' (in %s)' % stk[-1].split('::')[-1]) if stk else ''))
             if not touched:
                 continue
             n_api += 1
@@ -69,12 +79,14 @@ def run(ctx, prog):
             ctx.ob('C12.H4', '%s|%s' % (f.n, f.sig), not wrong, f.where, '%s<%s> operates on the registry %s' % (f.n, scalar, [w.split('::')[-1] for w in wrong]),
                    sample='%s -> %s' % (f.n, own_reg.split('::')[-1]), nontrivial=not f.n.startswith('masa_eval_'))
         ctx.floor('api_functions_using_registry<%s>' % scalar, n_api, 100)
-        okm = writers['_master_map'] <= {'masa_init'}
-        okp = writers['_master_pointer'] <= {'masa_init', 'masa_select_mms'}
+        okm = not outside['_master_map']
+        okp = not outside['_master_pointer']
         ctx.ob('C12.H1', 'map-writers|' + sc, okm and 'masa_init' in writers['_master_map'], prog.records[rq]['l'],
-               'the registry map can be modified through %s' % sorted(writers['_master_map']), sample='registry map modified only through %s' % sorted(writers['_master_map']))
+               'the registry map is modified outside init_mms: %s' % outside['_master_map'][:3] if not okm else 'masa_init does not modify the registry map',
+               sample='registry map modified only inside init_mms (entry points: %s)' % sorted(writers['_master_map']))
         ctx.ob('C12.H1', 'pointer-writers|' + sc, okp and {'masa_init', 'masa_select_mms'} <= writers['_master_pointer'], prog.records[rq]['l'],
-               'the selection pointer can be written through %s' % sorted(writers['_master_pointer']), sample='selection pointer written only through %s' % sorted(writers['_master_pointer']))
+               'the selection pointer is written outside init_mms / select_mms: %s' % outside['_master_pointer'][:3] if not okp else 'masa_init / masa_select_mms do not write the selection pointer',
+               sample='selection pointer written only inside init_mms / select_mms (entry points: %s)' % sorted(writers['_master_pointer']))
         # select_mms: every non-fatal path leaves the pointer on find(parameter)->second, guarded by the handle being registered
         sm = meths['select_mms']
         sp, ngood = own.check_select(prog, sm, scalar)
